@@ -208,7 +208,34 @@ class Size:
             raise UnknownTruth(f'size division {self} / {o} is not exact')
         return r
 
-    __floordiv__ = __truediv__
+    def __floordiv__(self, o):
+        """n // B: exact division where it is one; otherwise, for a single free data size n and a constant B > 1, a fresh unknown q with q <= n -- the REMAINDER
+        n - B q is dropped, which is recorded (event 'floor-div') for the rules that ask whether every item is processed"""
+        if type(o).__name__ == 'Arr':
+            return NotImplemented
+        r = self.divide(o)
+        if r is not None:
+            return r
+        if self.reg is not None and isinstance(o, Size) and o.single_atom() in getattr(self.reg, 'min_of', {}):
+            # n // min(n, B): one block when n <= B (exact), n // B blocks of B otherwise
+            ops = self.reg.min_of[o.single_atom()]
+            consts = [x.const() for x in ops if x.is_const()]
+            if len(consts) == 1 and consts[0] > 1 and any(x == self for x in ops):
+                o = consts[0]
+        if self.reg is not None and isinstance(o, int) and not isinstance(o, bool) and o > 1 and self.single_atom() is not None:
+            memo = self.reg.__dict__.setdefault('floordivs', {})
+            key = (self.single_atom(), o)
+            if key not in memo:
+                memo[key] = self.reg.new('q', free=True, upper=[self], origin=f'floor division {self} // {o}')
+                try:
+                    from . import arr as _A
+                    if _A.CTX is not None:
+                        _A.CTX.event('floor-div', dividend=self, divisor=o, quotient=memo[key],
+                                     detail=f'{self} // {o}: the remainder {self} mod {o} is not part of the quotient')
+                except ImportError:
+                    pass
+            return memo[key]
+        raise UnknownTruth(f'size division {self} // {o} is not exact')
 
     def __rtruediv__(self, o):
         r = Size.of(o, self.reg).divide(self)
@@ -221,6 +248,12 @@ class Size:
     def __mod__(self, o):
         if self.divide(o) is not None:
             return 0
+        try:
+            from . import arr as _A
+            if _A.CTX is not None:
+                _A.CTX.event('size-mod', dividend=self, divisor=o)          # (the code looks at the remainder: a blocked loop may handle it)
+        except ImportError:
+            pass
         raise UnknownTruth(f'{self} mod {o}')
 
     def __int__(self):
